@@ -1,22 +1,28 @@
 (* Cache.v — model of the two caches a long-lived linter carries:
      * LintGroup::chunk_pattern_cache  (harper-core/src/linting/lint_group.rs, LintGroup::lint)
-         LruCache<(CharString, u64), Vec<Lint>> : (chunk characters, hash of the configuration) ->
-         the lints of all enabled pattern rules on that chunk, spans RELATIVE to the chunk start;
+         LruCache<(CharString, u64, u64), Vec<Lint>> :
+         (chunk characters, hash of the configuration, hash of the chunk's token kinds and of their spans
+          relative to the chunk start) -> the lints of all enabled pattern rules on that chunk, spans RELATIVE
+         to the chunk start;
      * SpellCheck::word_cache          (harper-core/src/linting/spell_check.rs,
          cached_suggest_correct_spelling)   LruCache<CharString, Vec<CharString>> : word -> suggestions.
    No proofs here (Proofs/CacheProofs.v).
 
-   What is modelled literally: the order struct rules / chunks, the `continue` on a chunk without span,
-   the key construction, get -> clone on a hit; on a miss run the rules, pull_by(chunk start) (checked
-   usize subtraction), put, then push_by(chunk start) for hits and misses alike; the spelling cache's
-   get / compute / put; `self.config` as mutable state between lints.
+   What is modelled literally: the order struct rules / chunks, the hull of a chunk (`chunk.span()`: minimum and
+   maximum over the starts and ends of its tokens, Span::new), the `continue` on a chunk without span,
+   get_span_content, the key construction — including the two checked usize subtractions per token
+   (`token.span.start - chunk_span.start`, `token.span.end - chunk_span.start`) that feed the token hash —,
+   get -> clone on a hit; on a miss run the rules, pull_by(chunk start) (checked usize subtraction), put, then
+   push_by(chunk start) for hits and misses alike; the spelling cache's get / compute / put; `self.config` as
+   mutable state between lints.
 
    What is abstract (Section variables; each one is monitored on the implementation by harness/src/bin/c05.rs):
+     kind          a token's TokenKind with everything inside it (word metadata, a quote's twin_loc, ...)
      pattern_rel   the lints all enabled pattern rules produce on a chunk, relative to the chunk start, as a
-                   function of (chunk characters, token structure of the chunk, configuration).  The token
-                   structure is everything run_on_chunk hands to the rules: the chunk's tokens (kinds with
-                   metadata, spans relative to the chunk start).  [monitor rule_fun: the same triple never
-                   yields two different results, at any offset, in any document]
+                   function of (chunk characters, the chunk's tokens — kinds, spans relative to the chunk start —,
+                   configuration): everything run_on_chunk hands to the rules, up to translation.
+                   [monitor rule_fun: the same triple never yields two different results, at any offset, in
+                   any document]
      struct_pre / struct_post   the lints of the enabled struct rules sorted before / after "SpellCheck" in
                    the BTreeMap, as functions of (configuration, document)
      suggest       cached_suggest_correct_spelling's uncached body (dictionary and dialect are fields of the
@@ -25,8 +31,9 @@
                    carries an adversarial eviction schedule (one keep-predicate per chunk / per word, applied
                    before the lookup) and there is an Evict operation between operations.  This covers every
                    capacity >= 0 and every replacement order; `get` promoting an entry is then unobservable.
-     the key       mkkey : chars -> toks -> cfg -> K.  The code's key is `code_key` below: (chars, hash cfg) —
-                   it ignores the tokens.  `fixed_key` is the key proposed in fixes/F11.diff. *)
+     the key       mkkey : chars -> relative tokens -> cfg -> K.  The code's key is `code_key` below:
+                   (chars, hash cfg, hash tokens).  `code_key_old` is the key before commit a050122 (it ignored
+                   the tokens: finding F11), kept for the regression witness only. *)
 Require Import Base.
 
 (* a lint: its span and everything else (kind, message, suggestions, priority) as an opaque identity *)
@@ -49,6 +56,12 @@ Fixpoint text_eqb (a b : text) : bool :=
   | _, _ => false
   end.
 
+(* itertools::minmax over a non-empty sequence x :: l *)
+Fixpoint list_min (x : nat) (l : list nat) : nat :=
+  match l with [] => x | y :: r => list_min (Nat.min x y) r end.
+Fixpoint list_max (x : nat) (l : list nat) : nat :=
+  match l with [] => x | y :: r => list_max (Nat.max x y) r end.
+
 (* ---------- finite maps as association lists (first match wins) ---------- *)
 Section Assoc.
   Context {K V : Type}.
@@ -69,19 +82,60 @@ End Assoc.
 
 Definition keep_all {K} : K -> bool := fun _ => true.
 
+(* ---------- tokens ---------- *)
+Section Tokens.
+  Variable kind : Type.
+  (* a token as the caches see it: its kind and its span *)
+  Definition tok := (kind * span)%type.
+
+  (* TokenStringExt::span of a token slice: minmax over the starts and ends of all tokens;
+     NoElements => None, OneElement(m) => Span::new(m, m), MinMax(a, b) => Span::new(a, b) *)
+  Definition tok_points (t : tok) : list nat := [sstart (snd t); send (snd t)].
+  Definition hull_of (ts : list tok) : res (option span) :=
+    match flat_map tok_points ts with
+    | [] => Ok None
+    | [x] => do s <- span_new x x; Ok (Some s)
+    | x :: r => do s <- span_new (list_min x r) (list_max x r); Ok (Some s)
+    end.
+
+  (* what the token hash is fed with, per token: the kind, `token.span.start - chunk_span.start` and
+     `token.span.end - chunk_span.start` (usize subtractions: panic on underflow in a debug build) *)
+  Definition rel_tok (base : nat) (t : tok) : res tok :=
+    do s <- sub_chk (sstart (snd t)) base;
+    do e <- sub_chk (send (snd t)) base;
+    Ok (fst t, mkspan s e).
+  Definition rel_toks (base : nat) (ts : list tok) : res (list tok) := mapM (rel_tok base) ts.
+End Tokens.
+Arguments tok_points {kind}.
+Arguments hull_of {kind}.
+Arguments rel_tok {kind}.
+Arguments rel_toks {kind}.
+
 Section Cache.
-  Variables cfg toks K : Type.
+  Variables cfg kind K : Type.
   Variable k_eqb : K -> K -> bool.
+  Notation toks := (list (tok kind)).
   Variable mkkey : text -> toks -> cfg -> K.
   Variable pattern_rel : text -> toks -> cfg -> list clint.
 
-  (* a chunk that has a span: where it starts in the document, its characters
-     (document.get_span_content(&chunk_span)), its tokens *)
+  (* a chunk that has a span: where it starts in the document (chunk_span.start), its characters
+     (document.get_span_content(&chunk_span)), its tokens with their spans in document space *)
   Record chunk := mkchunk { c_start : nat; c_chars : text; c_toks : toks }.
   (* a document as LintGroup::lint and SpellCheck::lint see it: the chunks of iter_chunks() in order
      (None = `chunk.span()` is None, the loop continues), the words SpellCheck does not accept (span and
      characters, in order), and an identity standing for everything else the struct rules read *)
   Record doc := mkdoc { d_chunks : list (option chunk); d_miss : list (span * text); d_rest : N }.
+
+  (* the chunk as LintGroup::lint derives it from the source and a token slice of iter_chunks():
+     chunk.span() (None: continue), then get_span_content (Span::get_content, panics outside the source) *)
+  Definition chunk_of (src : text) (ts : toks) : res (option chunk) :=
+    do h <- hull_of ts;
+    match h with
+    | None => Ok None
+    | Some sp => do chars <- get_content sp src; Ok (Some (mkchunk (sstart sp) chars ts))
+    end.
+  Definition doc_of (src : text) (chunks : list toks) (miss : list (span * text)) (rest : N) : res doc :=
+    do chs <- mapM (chunk_of src) chunks; Ok (mkdoc chs miss rest).
 
   Variables struct_pre struct_post : cfg -> doc -> list clint.
   Variable spell_on : cfg -> bool.
@@ -101,13 +155,15 @@ Section Cache.
         match oc with
         | None => lint_chunks c rest (tl evs) m1
         | Some ch =>
-            let key := mkkey (c_chars ch) (c_toks ch) c in
+            (* token_hash: for token in chunk { kind; span.start - chunk_span.start; span.end - chunk_span.start } *)
+            do rt <- rel_toks (c_start ch) (c_toks ch);
+            let key := mkkey (c_chars ch) rt c in
             do '(m2, rel, hit) <-
                match lookup k_eqb key m1 with
                | Some v => Ok (m1, v, true)                                   (* hit.clone() *)
                | None =>
                    (* run_on_chunk of every enabled pattern rule: spans in document space *)
-                   let absl := map (lpush (c_start ch)) (pattern_rel (c_chars ch) (c_toks ch) c) in
+                   let absl := map (lpush (c_start ch)) (pattern_rel (c_chars ch) rt c) in
                    do rel <- mapM (lpull (c_start ch)) absl;                  (* lint.span.pull_by(chunk_span.start) *)
                    Ok (put k_eqb key rel m1, rel, false)
                end;
@@ -166,10 +222,14 @@ Section Cache.
     end.
 
   (* ---------- the specification: no cache anywhere ---------- *)
+  (* the chunk's tokens translated to the chunk start; total (saturating) — equal to rel_toks wherever that
+     does not panic, which is the case for every chunk built by chunk_of (CacheProofs.chunk_of_wf) *)
+  Definition spec_rel (ch : chunk) : toks :=
+    map (fun t => (fst t, mkspan (sstart (snd t) - c_start ch) (send (snd t) - c_start ch))) (c_toks ch).
   Definition spec_chunk (c : cfg) (oc : option chunk) : list clint :=
     match oc with
     | None => []
-    | Some ch => map (lpush (c_start ch)) (pattern_rel (c_chars ch) (c_toks ch) c)
+    | Some ch => map (lpush (c_start ch)) (pattern_rel (c_chars ch) (spec_rel ch) c)
     end.
   Definition spec_words (ws : list (span * text)) : list clint :=
     map (fun p => spell_mk (snd p) (fst p) (suggest (snd p))) ws.
@@ -194,9 +254,9 @@ Section Cache.
     | Evict _ _ :: t => fresh_hist t c
     end.
 
-  (* the (chars, tokens, configuration) triples a history hands to the pattern rules or looks up *)
+  (* the (chars, relative tokens, configuration) triples a history hands to the pattern rules or looks up *)
   Definition doc_triples (c : cfg) (d : doc) : list (text * toks * cfg) :=
-    flat_map (fun oc => match oc with None => [] | Some ch => [(c_chars ch, c_toks ch, c)] end) (d_chunks d).
+    flat_map (fun oc => match oc with None => [] | Some ch => [(c_chars ch, spec_rel ch, c)] end) (d_chunks d).
   Fixpoint hist_triples (h : list op) (c : cfg) : list (text * toks * cfg) :=
     match h with
     | [] => []
@@ -204,61 +264,70 @@ Section Cache.
     | Lint d _ _ :: t => doc_triples c d ++ hist_triples t c
     | Evict _ _ :: t => hist_triples t c
     end.
+
+  (* well-formedness of the chunks of a history: no token of a chunk starts or ends before the chunk's start.
+     Established by construction for every chunk LintGroup::lint builds (chunk_of: the start is the minimum). *)
+  Definition chunk_wf (ch : chunk) : Prop :=
+    Forall (fun t => c_start ch <= sstart (snd t) /\ c_start ch <= send (snd t)) (c_toks ch).
+  Definition doc_wf (d : doc) : Prop :=
+    forall ch, In (Some ch) (d_chunks d) -> chunk_wf ch.
+  Fixpoint hist_wf (h : list op) : Prop :=
+    match h with
+    | [] => True
+    | Lint d _ _ :: t => doc_wf d /\ hist_wf t
+    | _ :: t => hist_wf t
+    end.
 End Cache.
 
-Arguments mkchunk {toks}.
-Arguments c_start {toks}.
-Arguments c_chars {toks}.
-Arguments c_toks {toks}.
-Arguments mkdoc {toks}.
-Arguments d_chunks {toks}.
-Arguments d_miss {toks}.
-Arguments d_rest {toks}.
-Arguments SetCfg {cfg toks K}.
-Arguments Lint {cfg toks K}.
-Arguments Evict {cfg toks K}.
+Arguments mkchunk {kind}.
+Arguments c_start {kind}.
+Arguments c_chars {kind}.
+Arguments c_toks {kind}.
+Arguments mkdoc {kind}.
+Arguments d_chunks {kind}.
+Arguments d_miss {kind}.
+Arguments d_rest {kind}.
+Arguments chunk_of {kind}.
+Arguments doc_of {kind}.
+Arguments spec_rel {kind}.
+Arguments chunk_wf {kind}.
+Arguments doc_wf {kind}.
+Arguments SetCfg {cfg kind K}.
+Arguments Lint {cfg kind K}.
+Arguments Evict {cfg kind K}.
 Arguments mkstate {cfg K}.
 Arguments st_cfg {cfg K}.
 Arguments st_cache {cfg K}.
 Arguments st_spell {cfg K}.
 Arguments fresh {cfg K}.
 
-(* ---------- the key the code builds: (chunk_chars.into(), hasher_builder.hash_one(&self.config)) ---------- *)
-Definition code_key {cfg toks} (cfg_hash : cfg -> N) (chars : text) (_ : toks) (c : cfg) : text * N :=
-  (chars, cfg_hash c).
-Definition code_key_eqb (a b : text * N) : bool := text_eqb (fst a) (fst b) && N.eqb (snd a) (snd b).
-
-(* ---------- the key of fixes/F11.diff: additionally a hash of the chunk's token kinds and relative spans ---------- *)
-Definition fixed_key {cfg toks} (cfg_hash : cfg -> N) (tok_hash : toks -> N) (chars : text) (t : toks) (c : cfg)
-  : text * N * N := (chars, cfg_hash c, tok_hash t).
-Definition fixed_key_eqb (a b : text * N * N) : bool :=
+(* ---------- the key the code builds:
+     (chunk_chars.into(), hasher_builder.hash_one(&self.config), token_hash)                      ---------- *)
+Definition code_key {cfg kind} (cfg_hash : cfg -> N) (tok_hash : list (tok kind) -> N)
+    (chars : text) (t : list (tok kind)) (c : cfg) : text * N * N := (chars, cfg_hash c, tok_hash t).
+Definition code_key_eqb (a b : text * N * N) : bool :=
   text_eqb (fst (fst a)) (fst (fst b)) && N.eqb (snd (fst a)) (snd (fst b)) && N.eqb (snd a) (snd b).
 
-(* ---------- driver entry points (extracted).  cfg, toks := N (identities interned by the harness) ---------- *)
-(* a chunk from the document source and the hull span of its tokens, as LintGroup::lint builds it:
-   chunk.span() then document.get_span_content(&span) (Span::get_content, panics outside the source) *)
-Definition chunk_of (src : text) (hull : option span) (t : N) : res (option (chunk N)) :=
-  match hull with
-  | None => Ok None
-  | Some sp => do chars <- get_content sp src; Ok (Some (mkchunk (sstart sp) chars t))
-  end.
+(* ---------- HISTORY: the key before commit a050122 (finding F11) — (chars, hash cfg), tokens ignored.
+   Used only by the regression witness C05_old_key_refuted. ---------- *)
+Definition code_key_old {cfg kind} (cfg_hash : cfg -> N) (chars : text) (_ : list (tok kind)) (c : cfg) : text * N :=
+  (chars, cfg_hash c).
+Definition code_key_old_eqb (a b : text * N) : bool := text_eqb (fst a) (fst b) && N.eqb (snd a) (snd b).
 
+(* ---------- driver entry points (extracted).  cfg, kind := N (identities interned by the harness) ---------- *)
 (* spell_mk of the driver: the harness hands `suggest w` over as [[payload]] — the identity of the lint a
    fresh SpellCheck builds for the word w — so the lint served from the cache is visible in the output *)
 Definition drv_spell_mk (_ : text) (sp : span) (sug : list text) : clint := mkclint sp (hd 0%N (hd [] sug)).
 
-Definition run_lint_code (cfg_hash : N -> N) (pattern_rel : text -> N -> N -> list clint)
-    (pre post : list clint) (spell_on : bool) (suggest : text -> list text)
-    (st : state N (text * N)) (d : doc N) (evs : list (text * N -> bool)) (sevs : list (text -> bool))
-  : res (state N (text * N) * list clint * (list bool * list bool)) :=
-  lint_doc N N (text * N) code_key_eqb (code_key cfg_hash) pattern_rel
-           (fun _ _ => pre) (fun _ _ => post) (fun _ => spell_on) suggest drv_spell_mk st d evs sevs.
+Definition drv_doc_of (src : text) (chunks : list (list (tok N))) (miss : list (span * text)) : res (doc N) :=
+  doc_of src chunks miss 0%N.
 
-Definition run_lint_fixed (cfg_hash : N -> N) (pattern_rel : text -> N -> N -> list clint)
+Definition run_lint_code (cfg_hash : N -> N) (tok_hash : list (tok N) -> N)
+    (pattern_rel : text -> list (tok N) -> N -> list clint)
     (pre post : list clint) (spell_on : bool) (suggest : text -> list text)
     (st : state N (text * N * N)) (d : doc N) (evs : list (text * N * N -> bool)) (sevs : list (text -> bool))
   : res (state N (text * N * N) * list clint * (list bool * list bool)) :=
-  lint_doc N N (text * N * N) fixed_key_eqb (fixed_key cfg_hash (fun t => t)) pattern_rel
+  lint_doc N N (text * N * N) code_key_eqb (code_key cfg_hash tok_hash) pattern_rel
            (fun _ _ => pre) (fun _ _ => post) (fun _ => spell_on) suggest drv_spell_mk st d evs sevs.
 
 Definition run_set_cfg {K} (st : state N K) (c : N) : state N K := mkstate c (st_cache st) (st_spell st).
